@@ -37,8 +37,8 @@ type Fault struct {
 	Report  bool   `json:"report,omitempty"` // the operation is expected to report the injected code
 	// Fragmentation (no fault for the client): the complete frame is delivered in pieces, each one written only after
 	// the client took the previous one from the socket, so that the client's buffered reader sees exactly these pieces.
-	Splits   []int `json:"splits,omitempty"`   // byte positions of the frame at which a new piece starts (ascending)
-	Piece    int   `json:"piece,omitempty"`    // > 0: from position From on, pieces of this many bytes
+	Splits   []int `json:"splits,omitempty"` // byte positions of the frame at which a new piece starts (ascending)
+	Piece    int   `json:"piece,omitempty"`  // > 0: from position From on, pieces of this many bytes
 	From     int   `json:"from,omitempty"`
 	HoldRest bool  `json:"holdRest,omitempty"` // what follows the first piece is written once the next request has arrived (pipelined use)
 }
@@ -52,8 +52,10 @@ type Op struct {
 	Arg        int    `json:"arg,omitempty"`
 	Fault      *Fault `json:"fault,omitempty"`
 	DeadlineMs int    `json:"deadlineMs,omitempty"`
-	SleepMs    int    `json:"sleepMs,omitempty"`   // pause before the operation starts
-	HoldReqMs  int    `json:"holdReqMs,omitempty"` // pause inside doRequest (write lock held), so that other callers queue up
+	SleepMs    int    `json:"sleepMs,omitempty"`    // pause before the operation starts
+	HoldReqMs  int    `json:"holdReqMs,omitempty"`  // pause inside doRequest (write lock held), so that other callers queue up
+	HoldWrite  bool   `json:"holdWrite,omitempty"`  // the Write of the request returns only when the scenario lets it (reorder.go)
+	AfterReq   int    `json:"afterReq,omitempty"`   // start once the broker has processed this operation's request
 	AfterPiece int    `json:"afterPiece,omitempty"` // start once the client took the first piece of this operation's (fragmented) response
 }
 
@@ -73,7 +75,10 @@ type Script struct {
 	Versions map[string]int `json:"versions"`
 	Ops      []Op           `json:"ops"`
 	Codec    int            `json:"codec,omitempty"`
-	Data     [][]RecSpec    `json:"data,omitempty"` // the partition's batches (default: 12 small records in batches of 4)
+	Data     [][]RecSpec    `json:"data,omitempty"`   // the partition's batches (default: 12 small records in batches of 4)
+	Poison   *Poison        `json:"poison,omitempty"` // kind "pool": the first step (pool.go)
+	// AnswerOrder: the broker answers these operations in this order, whatever the order of their requests (reorder.go)
+	AnswerOrder []int `json:"answerOrder,omitempty"`
 }
 
 const topic = "t"
@@ -100,6 +105,7 @@ type run struct {
 	byTag     map[string][]*Op // request signature -> ops in script order (for fault placement and reply events)
 	gates     map[int]chan struct{}
 	gateOnce  map[int]*sync.Once
+	ro        *reorder
 	frameLen  map[int]int
 	lastYield map[int]string
 	started   bool
@@ -166,6 +172,7 @@ func (r *run) hook(ev string, a []interface{}) {
 		err, _ := a[1].(error)
 		r.rec.Emit(trace.Event{"ev": "req", "o": r.opOfG(), "id": int(a[0].(int32)), "ok": err == nil})
 	case "conn.take":
+		defer r.looked(r.opOfG())
 		r.rec.Emit(trace.Event{"ev": "take", "o": r.opOfG(), "id": int(a[0].(int32)), "size": a[1].(int)})
 	case "conn.yield":
 		// busy loop in waitResponse: one event per change of the observed id is enough
@@ -174,13 +181,16 @@ func (r *run) hook(ev string, a []interface{}) {
 		o := r.gids[goid()]
 		dup := r.lastYield[o] == key
 		r.lastYield[o] = key
+		r.ro.seen[o] = r.ro.nwritten
 		r.mu.Unlock()
 		if !dup {
 			r.rec.Emit(trace.Event{"ev": "yield", "o": o, "id": int(a[0].(int32)), "rid": int(a[1].(int32))})
 		}
 	case "conn.noprogress":
+		defer r.looked(r.opOfG())
 		r.rec.Emit(trace.Event{"ev": "noprogress", "o": r.opOfG(), "id": int(a[0].(int32)), "rid": int(a[1].(int32))})
 	case "conn.peekerr":
+		defer r.looked(r.opOfG())
 		r.rec.Emit(trace.Event{"ev": "peekerr", "o": r.opOfG(), "id": int(a[0].(int32))})
 	case "conn.done":
 		err, _ := a[1].(error)
@@ -793,7 +803,15 @@ func setup(sc *Script) (*run, *fakenet.Conn, error) {
 			r.gates[op.O], r.gateOnce[op.O] = make(chan struct{}), new(sync.Once)
 		}
 	}
+	r.ro = newReorder(sc)
 	conn, nc, err := dial(r.net)
+	for i := range sc.Ops {
+		if sc.Ops[i].HoldWrite && err == nil {
+			// the same connection, with a client end whose Write returns when the scenario lets it
+			conn = kafka.NewConnWith(&heldConn{Conn: nc, r: r}, kafka.ConnConfig{ClientID: "vh", Topic: topic, Partition: 0})
+			break
+		}
+	}
 	if err != nil {
 		return r, nil, err
 	}
@@ -851,6 +869,15 @@ func setup(sc *Script) (*run, *fakenet.Conn, error) {
 			"kerr": kerr, "cut": cut, "len": flen, "unread": unread, "sig": sig, "rid": int(req.CorrID)}
 		if rep.CorrID != nil {
 			ev["rid"] = int(*rep.CorrID)
+		}
+		if op != nil && r.inAnswerOrder(op.O) && rep.CutAt < 0 && rep.StallAt == 0 && !rep.None && !rep.Close && rep.Raw == nil && rep.Gate == nil && rep.Lazy == nil {
+			// held back and written in the scenario's answer order
+			res := r.hold(req, rep, op.O, ev)
+			r.requestProcessed(op.O)
+			return res
+		}
+		if op != nil {
+			r.requestProcessed(op.O)
 		}
 		if op != nil && (op.Fault.fragmented() || (op.Fault != nil && len(rep.Chunks) > 0)) && rep.CutAt < 0 && rep.StallAt == 0 && !rep.None && !rep.Close && rep.Raw == nil && rep.Gate == nil && rep.Lazy == nil {
 			// delivered here, piece by piece, so that the trace says how much of the frame had been delivered when
@@ -990,6 +1017,12 @@ func Run(sc *Script) []trace.Event {
 				if op.SleepMs > 0 {
 					time.Sleep(time.Duration(op.SleepMs) * time.Millisecond)
 				}
+				if g := r.ro.reqGate[op.AfterReq]; g != nil {
+					select {
+					case <-g:
+					case <-time.After(3 * time.Second):
+					}
+				}
 				if g := r.gates[op.AfterPiece]; g != nil {
 					select {
 					case <-g:
@@ -998,6 +1031,9 @@ func Run(sc *Script) []trace.Event {
 				}
 				r.rec.Emit(trace.Event{"ev": "opbegin", "o": op.O, "kind": op.Kind})
 				res := r.timed(conn, r.cl, op)
+				r.mu.Lock()
+				r.ro.finished[op.O] = true
+				r.mu.Unlock()
 				emitEnd(op, res)
 			}
 		}(byG[g])
